@@ -29,7 +29,7 @@ import (
 // C14 — redirect URLs carry the exact message and a signature over exact query octets.
 
 var c14Relay = []string{"", "foobar", "a b", "a+b", "a&b=c", "100%", "%41", "ünï/日本", "a;b", "~._-*", "line1\nline2", strings.Repeat("relay-state-", 170), "SAMLRequest=x&SigAlg=y", "#frag?x", " lead", "trail ", " ", "\t", "café", "日本語", "a.b-c_d~e", "Ünï9"}
-var c14Docs = []string{"authn", "logout", "tiny", "non-ascii"}
+var c14Docs = []string{"authn", "logout", "tiny", "non-ascii", "prolog-and-trailer"}
 var c14URLs = []string{"https://idp.example.com/sso", "https://idp.example.com/sso?x=1", "https://idp.example.com/sso?x=1&y=a%20b&x=2", "https://idp.example.com/a%20path/sso", "https://idp.example.com/sso?empty=&flag"}
 var c14Funcs = []string{"BuildAuthURL", "BuildAuthURLFromDocument", "BuildAuthURLRedirect", "BuildLogoutURLRedirect", "AuthRedirect"}
 var c14Algs = []string{"", dsig.RSASHA1SignatureMethod, dsig.RSASHA512SignatureMethod, dsig.ECDSASHA256SignatureMethod}
@@ -98,6 +98,12 @@ func c14Doc(sp *saml2.SAMLServiceProvider, which string) (*etree.Document, error
 		d := etree.NewDocument()
 		d.CreateElement("a")
 		return d, nil
+	case "prolog-and-trailer":
+		// a document the caller parsed from text: declaration, comment and processing instruction
+		// before the root, comment and newline after it
+		d := etree.NewDocument()
+		err := d.ReadFromString("<?xml version=\"1.0\" encoding=\"UTF-8\"?>\n<!-- before -->\n<?pi data?>\n<samlp:AuthnRequest xmlns:samlp=\"urn:oasis:names:tc:SAML:2.0:protocol\" ID=\"_p1\" Version=\"2.0\"><note>x</note></samlp:AuthnRequest>\n<!-- after -->\n")
+		return d, err
 	default:
 		d := etree.NewDocument()
 		e := d.CreateElement("samlp:AuthnRequest")
@@ -360,7 +366,7 @@ func c14Replay(raw json.RawMessage) ([]string, string) {
 }
 
 func c14Run(r *mc.Run) {
-	r.Rule = "full product relay state(22) x document(4) x IdP URL(5: no query, one parameter, repeated and escaped parameters, escaped path, empty-valued and valueless parameters) x function(5) x SignAuthnRequests(2) x algorithm(4: unset, rsa-sha1, rsa-sha512, ecdsa-sha256) x key configuration(5, incl. a P-256 signing key with every algorithm setting), plus relay states assembled from every sequence of 2 (quick) / 2-3 (thorough) of 23 query-syntax fragments through the two signing redirect builders; oracle = hand-split raw query (no net/url), strict percent-decoding, base64 + raw inflate, PKCS#1 v1.5 / ECDSA verification with the reported certificate over SAMLRequest=..[&RelayState=..]&SigAlg=.. assembled from the raw values as they appear; each case is followed on the same instance by a second URL (other relay state, document and IdP endpoint) and, for RSA signers, by a third one after the signing key was replaced through SetSPSigningKeyStore. non-trivial = a URL was produced and decoded; distinct = distinct case"
+	r.Rule = "full product relay state(22) x document(5, incl. one with a declaration, comments and a processing instruction around the root) x IdP URL(5: no query, one parameter, repeated and escaped parameters, escaped path, empty-valued and valueless parameters) x function(5) x SignAuthnRequests(2) x algorithm(4: unset, rsa-sha1, rsa-sha512, ecdsa-sha256) x key configuration(5, incl. a P-256 signing key with every algorithm setting), plus relay states assembled from every sequence of 2 (quick) / 2-3 (thorough) of 23 query-syntax fragments through the two signing redirect builders; oracle = hand-split raw query (no net/url), strict percent-decoding, base64 + raw inflate, PKCS#1 v1.5 / ECDSA verification with the reported certificate over SAMLRequest=..[&RelayState=..]&SigAlg=.. assembled from the raw values as they appear; each case is followed on the same instance by a second URL (other relay state, document and IdP endpoint) and, for RSA signers, by a third one after the signing key was replaced through SetSPSigningKeyStore. non-trivial = a URL was produced and decoded; distinct = distinct case"
 	var cases []c14Case
 	mc.Enumerate(-1, r.Expired, func(ch *mc.Chooser) {
 		c := c14Case{}
